@@ -275,10 +275,44 @@ class SimCondition:
     notifyAll = notify_all
 
 
+class SimThread:
+    """threading.Thread for code that starts its own threads (python-can's
+    Notifier): the thread becomes a task of the seeded scheduler."""
+
+    def __init__(self, group=None, target=None, name=None, args=(), kwargs=None, daemon=None):
+        self._target = target
+        self._args = tuple(args)
+        self._kwargs = dict(kwargs or {})
+        self.name = name or "thread"
+        self.daemon = bool(daemon)
+        self._task = None
+
+    def start(self):
+        k = CUR
+        if not k.threaded:
+            raise HarnessError("threading.Thread.start() in Mode I")
+        if self._task is not None:
+            raise RuntimeError("threads can only be started once")
+        k.thread_seq = getattr(k, "thread_seq", 0) + 1
+        self._task = k.spawn("thr%d" % k.thread_seq, lambda: self._target(*self._args, **self._kwargs), daemon_task=self.daemon)
+
+    def join(self, timeout=None):
+        k = CUR
+        t = self._task
+        if t is None:
+            raise RuntimeError("cannot join thread before it is started")
+        deadline = None if timeout is None else k.now + int(max(timeout, 0) * SEC)
+        k.wait_until(lambda: t.state == "done", deadline, "Thread.join")
+
+    def is_alive(self):
+        return self._task is not None and self._task.state != "done"
+
+
 class SimThreadingModule:
     Lock = SimLock
     RLock = SimRLock
     Condition = SimCondition
+    Thread = SimThread
 
     def __getattr__(self, name):
         raise HarnessError("canopen used threading.%s, which the simulator does not model" % name)
